@@ -5,6 +5,7 @@ import (
 	"crypto/ed25519"
 	"errors"
 	"fmt"
+	"strings"
 	"testing"
 
 	"filippo.io/age"
@@ -25,9 +26,11 @@ type c19Action struct {
 }
 
 type c19Case struct {
-	Type       string      `json:"type"` // ed25519 | rsa
-	Mismatched bool        `json:"mismatched"`
-	Actions    []c19Action `json:"actions"`
+	Type       string `json:"type"` // ed25519 | rsa
+	Mismatched bool   `json:"mismatched"`
+	// CrossType: the key file holds a key of the other SSH type than the declared public key
+	CrossType bool        `json:"crossType,omitempty"`
+	Actions   []c19Action `json:"actions"`
 }
 
 func c19Spec(typ, who string) hx.RecSpec {
@@ -63,6 +66,17 @@ func c19File(c c19Case, a c19Action, n int) ([]byte, []byte) {
 			if st.Args[0] == a.Args[0] {
 				st.Args[0] = "AAAAAA"
 			}
+			sts = append(sts, st)
+		case "stored":
+			// a stanza for the key the (cross-type) key file really holds
+			sts = append(sts, refStanza(p, hx.RecSpec{Kind: other, Idx: 0}, fk, uint64(n*10+i))...)
+		case "Abits":
+			// a stanza for C whose tag is A's tag with the unused low bits of its last base64 character set
+			st := refStanza(p, c19Spec(c.Type, "C"), fk, uint64(n*10+i))[0]
+			a := refStanza(p, c19Spec(c.Type, "A"), fk, uint64(n*10+i))[0].Args[0]
+			const b64 = "ABCDEFGHIJKLMNOPQRSTUVWXYZabcdefghijklmnopqrstuvwxyz0123456789+/"
+			k := strings.IndexByte(b64, a[len(a)-1])
+			st.Args[0] = a[:len(a)-1] + string(b64[k+1+(n+i)%15])
 			sts = append(sts, st)
 		case "otherTypeTagA":
 			// a stanza of the OTHER SSH type that carries the identity's tag
@@ -104,6 +118,10 @@ func c19Check(c c19Case, st *stats.Run) error {
 		signer, _ := ssh.NewSignerFromKey(p.RSA[0])
 		pub, pem = signer.PublicKey(), p.RSAEncPEM[pemIdx]
 	}
+	if c.CrossType {
+		pem = map[string][]byte{"ed25519": p.RSAEncPEM[0], "rsa": p.EdEncPEM[0]}[c.Type]
+	}
+	mismatched := c.Mismatched || c.CrossType
 	prompts := 0
 	answer := "right"
 	id, err := agessh.NewEncryptedSSHIdentity(pub, pem, func() ([]byte, error) {
@@ -165,7 +183,7 @@ func c19Check(c c19Case, st *stats.Run) error {
 			switch {
 			case a.Answer != "right":
 				want = "fatal"
-			case c.Mismatched:
+			case mismatched:
 				want = "fatal"
 			default:
 				want = "success"
@@ -177,7 +195,7 @@ func c19Check(c c19Case, st *stats.Run) error {
 			if asked > 1 || (asked == 1 && (!match || validated)) {
 				return pbt.Failf("C19/prompt-without-match", "action %d (%v): passphrase requested %d time(s) although no prompt was due; %s", n, a.Stanzas, asked, hist)
 			}
-			if outcome == "success" && (!match || c.Mismatched) {
+			if outcome == "success" && (!match || mismatched) {
 				return pbt.Failf("C19/unexpected-success", "action %d (%v) decrypted; %s", n, a.Stanzas, hist)
 			}
 		} else {
@@ -196,13 +214,13 @@ func c19Check(c c19Case, st *stats.Run) error {
 				if n == 0 {
 					key = "C19/wrong-outcome"
 				}
-				return pbt.Failf(key, "action %d: file with stanzas %v (answer %s, mismatched key file: %v): outcome %s (%v), a fresh identity gives %s; %s", n, a.Stanzas, a.Answer, c.Mismatched, outcome, derr, want, hist)
+				return pbt.Failf(key, "action %d: file with stanzas %v (answer %s, mismatched key file: %v): outcome %s (%v), a fresh identity gives %s; %s", n, a.Stanzas, a.Answer, mismatched, outcome, derr, want, hist)
 			}
 		}
 		// the key is remembered once a prompt was answered with the right
 		// passphrase and the key belongs to the declared public key, whatever
 		// the stanzas after that made of the call
-		if !validated && asked == 1 && a.Answer == "right" && !c.Mismatched {
+		if !validated && asked == 1 && a.Answer == "right" && !mismatched {
 			validated = true
 		}
 		if asked > 0 && outcome != "success" && earlierFailure == "" {
@@ -216,13 +234,14 @@ func c19Check(c c19Case, st *stats.Run) error {
 	if first == "" {
 		first = "none"
 	}
-	st.Case(nontrivial, stats.HashJSON(c), "type="+c.Type, fmt.Sprintf("mismatched=%v", c.Mismatched), "first-failure="+first, fmt.Sprintf("actions=%d", len(c.Actions)))
-	st.Sample(fmt.Sprintf("%s/mismatched=%v/first-failure=%s", c.Type, c.Mismatched, first), c)
+	st.Case(nontrivial, stats.HashJSON(c), "type="+c.Type, fmt.Sprintf("mismatched=%v", mismatched), fmt.Sprintf("cross-type-key-file=%v", c.CrossType), "first-failure="+first, fmt.Sprintf("actions=%d", len(c.Actions)))
+	st.Sample(fmt.Sprintf("%s/mismatched=%v/first-failure=%s", c.Type, mismatched, first), c)
 	return nil
 }
 
 func c19Gen(t *rapid.T) c19Case {
 	c := c19Case{Type: rapid.SampledFrom([]string{"ed25519", "ed25519", "rsa"}).Draw(t, "type"), Mismatched: rapid.Bool().Draw(t, "mismatched")}
+	c.CrossType = rapid.IntRange(0, 3).Draw(t, "crossType") == 0
 	n := rapid.IntRange(1, 6).Draw(t, "nactions")
 	for i := 0; i < n; i++ {
 		var a c19Action
@@ -232,11 +251,11 @@ func c19Gen(t *rapid.T) c19Case {
 		case 2:
 			a.Stanzas = []string{"B"}
 		case 3:
-			a.Stanzas = []string{rapid.SampledFrom([]string{"C", "X", "other", "Acase", "otherTypeTagA"}).Draw(t, "foreign")}
+			a.Stanzas = []string{rapid.SampledFrom([]string{"C", "X", "other", "Acase", "otherTypeTagA", "stored", "Abits"}).Draw(t, "foreign")}
 		default:
 			m := rapid.IntRange(1, 4).Draw(t, "nst")
 			for j := 0; j < m; j++ {
-				a.Stanzas = append(a.Stanzas, rapid.SampledFrom([]string{"A", "B", "C", "X", "other", "noargs", "Acase", "otherTypeTagA"}).Draw(t, "st"))
+				a.Stanzas = append(a.Stanzas, rapid.SampledFrom([]string{"A", "B", "C", "X", "other", "noargs", "Acase", "otherTypeTagA", "stored", "Abits"}).Draw(t, "st"))
 			}
 		}
 		a.Answer = rapid.SampledFrom([]string{"right", "right", "wrong", "error", "empty"}).Draw(t, "answer")
@@ -252,20 +271,20 @@ func TestC19(t *testing.T) {
 	pbt.Regress(s, "histories", check)
 	// exhaustive: all two-action histories over {A, B, C, [C A], [X B A]} x {right, wrong} for both configurations (ed25519)
 	pbt.Each(s, "histories-exhaustive", func(yield func(c19Case)) {
-		files := [][]string{{"A"}, {"B"}, {"C"}, {"C", "A"}, {"X", "B", "A"}, {"A", "B"}, {"Acase"}, {"otherTypeTagA"}}
+		files := [][]string{{"A"}, {"B"}, {"C"}, {"C", "A"}, {"X", "B", "A"}, {"A", "B"}, {"Acase"}, {"otherTypeTagA"}, {"Abits"}, {"stored"}}
 		n := 0
-		for _, mm := range []bool{false, true} {
+		for _, mm := range []int{0, 1, 2} {
 			for _, f1 := range files {
 				for _, a1 := range []string{"right", "wrong", "empty"} {
 					seconds := files
 					if !s.Thorough() {
 						seconds = files[:1+3]
-						seconds = [][]string{{"A"}, {"B"}, {"C", "A"}, {"A", "B"}}
+						seconds = [][]string{{"A"}, {"B"}, {"C", "A"}, {"A", "B"}, {"stored"}}
 					}
 					for _, f2 := range seconds {
 						for _, a2 := range []string{"right", "wrong"}[:1+boolInt(s.Thorough())] {
 							if s.Mine(n) {
-								yield(c19Case{Type: "ed25519", Mismatched: mm, Actions: []c19Action{{f1, a1}, {f2, a2}}})
+								yield(c19Case{Type: "ed25519", Mismatched: mm == 1, CrossType: mm == 2, Actions: []c19Action{{f1, a1}, {f2, a2}}})
 							}
 							n++
 						}
@@ -273,7 +292,7 @@ func TestC19(t *testing.T) {
 				}
 			}
 		}
-		s.St.Exhaust("all two-call histories over 8 files x {right, wrong, empty passphrase} first answers, matched and mismatched key file (ssh-ed25519)", int64(n))
+		s.St.Exhaust("all two-call histories over 10 files x {right, wrong, empty passphrase} first answers; matching key file, mismatched key file of the same type, key file of the other SSH type (ssh-ed25519 identity)", int64(n))
 	}, check)
 	pbt.Rapid(s, "histories", s.N(60, 400), c19Gen, check)
 }
